@@ -198,7 +198,10 @@ package rapid
 // port is allocated by Listen)
 //@ event ApiListen = call rapi.(*Server).Listen
 //@ event ApiPortRead = call rapi.(*Server).Port
+//@ event ApiPortValue = ret rapi.(*Server).Port
+//@ event ApiHostValue = ret rapi.(*Server).Host
 //@ func Start
+//@   ensures [C16: the-published-address-splits-back-into-the-server's-host-and-port] hostOf(r2) == lastret(ApiHostValue) && portOf(r2) == itoa(lastret(ApiPortValue))
 //@   ensures [C16: the-published-address-is-read-after-listening] delta(ApiListen) == 1 && delta(ApiPortRead) == 1 && first(ApiListen) < first(ApiPortRead)
 //@   ensures [nothing-is-owed-before-the-first-invocation-start] typeis(r0, *rapidContext) && r0.(*rapidContext).invokeRuntimeDoneSent
 // the runtime-done bookkeeping of one invocation: rtDoneBooked(c) relates the flag on the context to the ghost count
